@@ -19,7 +19,7 @@ func init() {
 		Explanation: "Decides the structure of the per-phase transformation cache, not equality with uncached evaluation: R1 the cache is emptied at the start of every phase and is the map handed to Rule.Evaluate; " +
 			"R2 no stale or foreign entry: every cache key built in transformArg identifies the input by value identity (data pointer and length of the very string that is transformed) plus the transformation-prefix id, lookup keys and store keys are built from the same operands, and the stored entry pins the input string; " +
 			"R3 key determines value: the entry stored under prefix id i is the running value after applying transformation i (same index for function and id; the running value is replaced only by the output of a step that succeeded, never by a failed step's output), and a hit at index i resumes at i+1 from the cached value; " +
-			"R4 AddTransformation is given, as name, the key its function was looked up by; the two interning tables are inverses of each other (the name recorded for a new id is the name it is looked up by, built from the parent list's name and the new transformation; the id is the index it is appended at) and prefix ids are interned under one exclusive critical section (reads of the tables under the lock, the new id computed and inserted without releasing it), and a rule's transformation list, current id and prefix-id list are only ever updated together.",
+			"R4 AddTransformation is given, as name, the key its function was looked up by; the two interning tables are inverses of each other (the name recorded for a new id is the name it is looked up by, built from the parent list's name and the new transformation; the id is the index it is appended at) and prefix ids are interned under one exclusive critical section (reads of the tables under the lock, the new id computed and inserted without releasing it), and a rule's transformation list, current id and prefix-id list are only ever updated together. R3 also: every producer of the argument of executeOperator in doEvaluate is transformArg or transformMultiMatchArg (no constant, no untransformed value).",
 		NotDecided: []string{
 			"equality with uncached evaluation for all inputs",
 			"that distinct live strings never share pointer and length with different content (guaranteed by Go's memory model while the entry pins the input)",
